@@ -936,6 +936,17 @@ func (x *Exec) model(a *activation, b *ssa.BasicBlock, i int, in *ssa.Call, call
 			bit = 4
 		}
 		yes, no := v.fbits&bit != 0, v.fbits&(7&^bit) != 0
+		// IsInf(f, sign) with sign != 0 tests one infinity only: the other one
+		// is still possible where it answers false
+		oneSided := false
+		if name == "math.IsInf" {
+			if len(args) < 2 || !args[1].nk || args[1].n != 0 {
+				oneSided = v.fbits&2 != 0
+				if oneSided {
+					no = true
+				}
+			}
+		}
 		if yes {
 			f2, h2 := fr, h
 			if no {
@@ -949,7 +960,9 @@ func (x *Exec) model(a *activation, b *ssa.BasicBlock, i int, in *ssa.Call, call
 		}
 		if no {
 			nv := v
-			nv.fbits &^= bit
+			if !oneSided {
+				nv.fbits &^= bit
+			}
 			x.setVal(fr, in.Call.Args[0], nv)
 			fr.vals[in] = AV{k: 'B', tri: 2}
 			a.cont(b, i+1, fr, h, p)
